@@ -99,6 +99,9 @@ pub struct Level {
     pub tail: Tail,
     #[serde(default, skip_serializing_if = "Option::is_none")]
     pub version: Option<String>,
+    /// `fallback_to_usage()`: print the usage when the level got no items at all and fails
+    #[serde(default, skip_serializing_if = "std::ops::Not::not")]
+    pub usage_fallback: bool,
 }
 
 pub const DEF_VALUE: &str = "DEF";
@@ -162,6 +165,7 @@ impl Level {
         if let Some(v) = &self.version {
             o.cfg.version = Some(DocSpec::plain(v));
         }
+        o.cfg.fallback_to_usage = self.usage_fallback;
         o
     }
     pub fn walk<'a>(&'a self, f: &mut dyn FnMut(&'a Level, usize), depth: usize) {
@@ -341,6 +345,8 @@ fn decode_first(b: &[u8]) -> Option<char> {
 pub enum Out {
     Ok(Val),
     Fail,
+    /// usage printed on stdout: a level with `fallback_to_usage` that received no items and fails
+    Usage,
     Unspec(&'static str),
 }
 
@@ -389,6 +395,15 @@ fn env_lookup(n: &Names, env: &Env) -> Option<Tok> {
 }
 
 pub fn parse_level(l: &Level, anc: &[&Level], evs: &[Ev], env: &Env) -> Out {
+    let r = parse_level_inner(l, anc, evs, env);
+    // documented: "print help if app was called with no parameters" - only then
+    if l.usage_fallback && evs.is_empty() && r == Out::Fail {
+        return Out::Usage;
+    }
+    r
+}
+
+fn parse_level_inner(l: &Level, anc: &[&Level], evs: &[Ev], env: &Env) -> Out {
     let mut occ: Vec<Vec<Tok>> = vec![vec![]; l.named.len()];
     let mut words: Vec<(Tok, bool)> = vec![];
     let mut i = 0;
@@ -398,7 +413,10 @@ pub fn parse_level(l: &Level, anc: &[&Level], evs: &[Ev], env: &Env) -> Out {
             Ev::Long(n, v) => (l.find_named(None, Some(n.as_str())), v.clone()),
             Ev::Short(c, v) => (l.find_named(Some(*c), None), v.clone()),
             Ev::Word(w) => {
-                if words.is_empty() {
+                // a command is entered only when its name is the first item the level has not
+                // claimed: a surplus occurrence of a single-use item to its left is unclaimed
+                let surplus = l.named.iter().zip(occ.iter()).any(|(n, o)| n.kind.single() && o.len() > 1);
+                if words.is_empty() && !surplus {
                     if let Some(c) = l.find_cmd(&w.0) {
                         let mut anc2 = anc.to_vec();
                         anc2.push(l);
@@ -456,6 +474,10 @@ pub fn parse_level(l: &Level, anc: &[&Level], evs: &[Ev], env: &Env) -> Out {
     }
     if let Some((_, Out::Unspec(w))) = &cmd {
         return Out::Unspec(w);
+    }
+    // the usage printed by an entered command is its final answer (like its help)
+    if let Some((_, Out::Usage)) = &cmd {
+        return Out::Usage;
     }
     let mut vals = vec![];
     for (n, o) in l.named.iter().zip(occ.iter_mut()) {
